@@ -332,6 +332,24 @@ pub fn run(ctx: &Ctx) {
         "evalcase",
     );
 
+    // random trees whose atoms all speak about one subject (see c04::subject_case): the shapes an implementation may
+    // special-case, against the reference evaluator
+    let nsub = ctx.tier.pick(200_000u64, 3_000_000u64);
+    ctx.random(
+        "trees-about-one-subject",
+        nsub,
+        || gen::recipe(120),
+        |bytes, acc| {
+            let case = super::c04::subject_case(bytes);
+            if let Some(acc) = acc {
+                acc.case(&format!("subject:{}", root_sig(&case.expr)), true, || case.render());
+            }
+            check(&case)
+        },
+        |bytes| super::c04::subject_case(bytes).to_json(),
+        "evalcase",
+    );
+
     let c2 = Cells2::new(pool::reduced());
     ctx.enumerate(
         "depth2-reduced",
